@@ -78,7 +78,11 @@ func (c *c05Case) scenario() *Scenario {
 		rt = Script{Steps: []Step{{Op: "rt.next"}, {Op: "sleep", Ms: c.T + c.Delta}, {Op: "rt.response", ID: "cur", BodyMode: "transform"}, {Op: "rt.loop"}}}
 	case "hook":
 		rt = Script{Steps: []Step{{Op: "rt.next"}, {Op: "await", Name: "go", Ms: 8000}, {Op: "rt.response", ID: "cur", BodyMode: "transform"}, {Op: "rt.loop"}}}
-		sc.Hooks = []HookPlan{{Point: c.Hook, Nth: 1}}
+		nth := 1
+		if c.Gen2 && c.Hook == "fastinvoke.success" {
+			nth = 2 // the warm-up invocation succeeds first
+		}
+		sc.Hooks = []HookPlan{{Point: c.Hook, Nth: nth}}
 	}
 	if c.RtIgnore {
 		rt.OnTerm = "ignore"
@@ -98,7 +102,13 @@ func (c *c05Case) scenario() *Scenario {
 	}
 	sc.Driver = append(sc.Driver, Step{Op: "flag", Flag: "stage", Count: stage})
 	f := Step{Op: "invoke", Tag: "F", Payload: &kit.Blob{Len: 50, Seed: 2, Kind: "json"}}
-	if c.Family == "hook" {
+	if c.Family == "hook" && c.Hook == "fastinvoke.success" {
+		// the runtime answers at once; the report of that success to the waiting caller is held back until the function
+		// timeout has expired and its reset is over: the late report must not become the outcome of the next invocation
+		f.Async = true
+		sc.Driver = append(sc.Driver, f, Step{Op: "signal", Name: "go"}, Step{Op: "hook.wait", Point: c.Hook, Ms: 5000}, Step{Op: "join", Tag: "F"}, Step{Op: "sleep", Ms: 20},
+			Step{Op: "hook.release", Point: c.Hook}, Step{Op: "sleep", Ms: 30})
+	} else if c.Family == "hook" {
 		f.Async = true
 		sc.Driver = append(sc.Driver, f, Step{Op: "hook.wait", Point: c.Hook, Ms: 5000}, Step{Op: "signal", Name: "go"}, Step{Op: "sleep", Ms: 30},
 			Step{Op: "hook.release", Point: c.Hook}, Step{Op: "join", Tag: "F"})
@@ -256,7 +266,7 @@ func c05Gen(t *rapid.T) c05Case {
 	case "race":
 		c.Delta = rapid.IntRange(-40, 40).Draw(t, "delta")
 	case "hook":
-		c.Hook = rapid.SampledFrom([]string{"invoke.timeoutFired", "reset.flowsCancelled"}).Draw(t, "hook")
+		c.Hook = rapid.SampledFrom([]string{"invoke.timeoutFired", "reset.flowsCancelled", "fastinvoke.success"}).Draw(t, "hook")
 	}
 	// signal-ignoring processes cost 0.6-2 s of real time each: keep them to a quarter of the cases
 	stick := rapid.IntRange(0, 3).Draw(t, "sticky") == 0
@@ -274,7 +284,8 @@ func c05Fixed() []c05Case {
 	for _, ph := range c05Phases {
 		out = append(out, c05Case{Family: "stall", Phase: ph, NExt: 1, SubShut: []bool{true}, ExtStick: []bool{false}, T: 150})
 	}
-	out = append(out, c05Case{Family: "hook", Hook: "invoke.timeoutFired", T: 150}, c05Case{Family: "hook", Hook: "reset.flowsCancelled", T: 150, NExt: 1, SubShut: []bool{true}, ExtStick: []bool{false}})
+	out = append(out, c05Case{Family: "hook", Hook: "fastinvoke.success", T: 150}, c05Case{Family: "hook", Hook: "fastinvoke.success", T: 150, NExt: 1, SubShut: []bool{true}, ExtStick: []bool{false}, Gen2: true},
+		c05Case{Family: "hook", Hook: "invoke.timeoutFired", T: 150}, c05Case{Family: "hook", Hook: "reset.flowsCancelled", T: 150, NExt: 1, SubShut: []bool{true}, ExtStick: []bool{false}})
 	if kit.Thorough() {
 		for _, ph := range c05Phases {
 			for nExt := 0; nExt <= 2; nExt++ {
